@@ -1,5 +1,7 @@
 /- line-protocol handlers for the C16 models (Model/Layout.lean) -/
 import FontVerif.Model.Layout
+import FontVerif.Model.LayoutLookup
+import Std.Data.HashMap
 namespace FontVerif.Drv.C16
 open FontVerif FontVerif.Layout
 
@@ -73,6 +75,43 @@ def chunks {α : Type} (n : Nat) (xs : List α) : List (List α) :=
 def bits4 (x : Nat) : List Bool := [x % 2 == 1, x / 2 % 2 == 1, x / 4 % 2 == 1, x / 8 % 2 == 1]
 
 def showDevVR (r : DevVR Nat) : String := joinNats (r.devs.map (fun d => d.getD 0))
+
+
+/-- `n x₁ … xₙ rest` -/
+def takeCounted : List Nat → Option (List Nat × List Nat)
+  | [] => none
+  | n :: rest => if n ≤ rest.length then some (rest.take n, rest.drop n) else none
+
+/-- a class rule `n1 g… n2 g… f1 f2 id` -/
+def parseClassRule (xs : List Nat) : Option (ClassRule (Nat × Nat × Nat)) := do
+  let (c1, r1) ← takeCounted xs
+  let (c2, r2) ← takeCounted r1
+  match r2 with
+  | [f1, f2, id] => some ⟨c1, c2, (f1, f2, id)⟩
+  | _ => none
+
+def quads : List Nat → Option (List (Nat × Nat × Nat × Nat))
+  | [] => some []
+  | a :: b :: c :: d :: rest => (quads rest).map ((a, b, c, d) :: ·)
+  | _ => none
+
+/-- `id size n (cid csize)…` repeated -/
+def parseObjs (fuel : Nat) (xs : List Nat) : Option (List (Nat × AnchorObj)) :=
+  match fuel, xs with
+  | _, [] => some []
+  | 0, _ => none
+  | fuel + 1, id :: size :: n :: rest =>
+    if 2 * n ≤ rest.length then
+      match pairs (rest.take (2 * n)), parseObjs fuel (rest.drop (2 * n)) with
+      | some ch, some more => some ((id, ⟨size, ch⟩) :: more)
+      | _, _ => none
+    else none
+  | _, _ => none
+
+def showMarkBase (t : MarkBase Nat) : String :=
+  showCoverage t.markCov ++ " ; " ++ showCoverage t.baseCov ++ " ; " ++ toString t.classCount ++ " ; " ++
+    joinNats (t.marks.flatMap (fun p => [p.1, p.2])) ++ " ; " ++
+    " , ".intercalate (t.bases.map (fun r => joinNats (r.map (fun a => a.getD 0))))
 
 def handle (cmd : String) (args : List String) : Option String :=
   match cmd, (splitBar args).mapM nats? with
@@ -177,6 +216,66 @@ def handle (cmd : String) (args : List String) : Option String :=
           showCoverage t.cov ++ " ; " ++ showClassDef t.classDef1 ++ " ; " ++
             " , ".intercalate (t.rows.map (fun r => " ".intercalate (r.map (fun c =>
               toString c.1.scalars ++ " " ++ showDevVR c.1 ++ " " ++ showDevVR c.2)))))))
+    | _, _ => none
+  | "lk.split", some [[ty, flag], mfs, offsets, ks] =>
+    -- `split_subtables`: the lookup's offsets name the ORIGINAL subtables by small numbers (a number
+    -- may repeat = shared object); `ks[o]` = number of pieces the split function returns for
+    -- original `o` (0 = `None`).  The pieces of the `i`-th call are `100000 * (i + 1) + 100 * o + j`.
+    if mfs.length > 1 then none else
+    let lk : LookupG := ⟨ty, flag, offsets, mfs.head?⟩
+    let splitFn := fun (i o : Nat) =>
+      match ks[o]? with
+      | some k => if k = 0 then none else some ((List.range k).map (fun j => 100000 * (i + 1) + 100 * o + j))
+      | none => none
+    (match splitSubtables lk splitFn with
+    | none => some "trap"
+    | some out =>
+      some (joinNats [out.lookupType, out.flag, out.subtableCount] ++ " | " ++
+        joinNats out.markFilteringSet.toList ++ " | " ++
+        (if out.offsets.isEmpty then "-" else " ".intercalate (out.offsets.map (fun id =>
+          if id ≥ 100000 then toString (id % 100000 / 100) ++ "." ++ toString (id % 100)
+          else toString id)))))
+  | "classpairs.build", some rules =>
+    -- `insert_classes` for every rule `n1 g… n2 g… f1 f2 id` in order, then
+    -- `ClassPairPosBuilder::build`: per subtable coverage, the two class definitions, the two value
+    -- formats and the matrix (cell = rule id + 1, 0 = empty record)
+    (rules.mapM parseClassRule).map (fun rs =>
+      let rs := rs.map (fun r => (⟨sortDedup r.c1, sortDedup r.c2, r.v⟩ : ClassRule (Nat × Nat × Nat)))
+      match buildClassPairs (fun v => (v.1, v.2.1)) (ClassPairs.ofRules rs) with
+      | none => "trap"
+      | some ts => if ts.isEmpty then "-" else
+        " | ".intercalate (ts.map (fun t =>
+          showCoverage t.tbl.cov ++ " ; " ++ showClassDef t.tbl.classDef1 ++ " ; " ++
+          showClassDef t.tbl.classDef2 ++ " ; " ++ joinNats [t.vf1, t.vf2] ++ " ; " ++
+          " , ".intercalate (t.tbl.rows.map (fun r => joinNats (r.map (fun c =>
+            match c with | some v => v.2.2 + 1 | none => 0)))))))
+  | "mb.build", some [ops] =>
+    -- `insert_mark` (`0 g name anchor`) / `insert_base` (`1 g name anchor`) in order, then
+    -- `MarkToBaseBuilder::build`; second part: the results of the `insert_mark` calls
+    (quads ops).bind (fun qs =>
+      if qs.any (fun q => q.1 > 1) then none else
+      let step := fun (st : Option (MarkToBase Nat) × List String) (q : Nat × Nat × Nat × Nat) =>
+        match st.1 with
+        | none => st
+        | some b =>
+          if q.1 = 0 then
+            let r := b.marks.insert q.2.1 q.2.2.1 q.2.2.2
+            (some { b with marks := r.1 }, st.2 ++ [match r.2 with | .inl id => "o" ++ toString id | .inr n => "e" ++ toString n])
+          else (b.insertBase q.2.1 q.2.2.1 q.2.2.2, st.2)
+      let (b, res) := qs.foldl step (some MarkToBase.empty, [])
+      match b.bind MarkToBase.build with
+      | none => some "trap"
+      | some t => some (showMarkBase t ++ " | " ++ (if res.isEmpty then "-" else " ".intercalate res)))
+  | "mb.points", some [[classCount, baseCovSize, baseCount], marks, baseOffsets, objs] =>
+    -- `get_class_info` + the size loop of `split_mark_to_base_subtable`: mark records `(class, anchor
+    -- object)`, the base array's offset list (NON-NULL anchors only), the anchor objects
+    match pairs marks, parseObjs (objs.length + 1) objs with
+    | some marks, some table =>
+      let hm : Std.HashMap Nat AnchorObj := Std.HashMap.ofList table
+      let obj := fun id => (hm.get? id).getD ⟨0, []⟩
+      some (match mbSplitPoints obj baseCovSize baseCount (getClassInfo classCount marks baseOffsets) with
+        | none => "none"
+        | some pts => joinNats pts)
     | _, _ => none
   | "mb.split", some (mctbl :: [classCount] :: pts :: marks :: rows) =>
     -- `split_off_mark_pos` for every range of the given split points; mark record `i` = (class,
